@@ -184,7 +184,10 @@ CLAIMED = {
             'the key at the store (D-R1g); a memoize hit cannot fail where the miss succeeded (D-R6h); cached LU '
             'factors are neither handed to a caller nor returned with overwrite (D-LU2, D-LU3); the working data of '
             'an invertlaplace call lives on a call-local object (D-R9); the stieltjes guard parameter is '
-            'canonicalised (D-R1i).  '
+            'canonicalised (D-R1i); the matrix LU cache is a typestate held / dropped in which every change of the '
+            'entries happens after the drop, so that an exception cannot separate them (D-R4 rewritten), a memoized '
+            'matrix is stored or returned as a copy (D-R6m), and factors whose computation rejects by a '
+            'precision-dependent test are reused at the same precision only (D-LU4).  '
             'This decides the "never reused at lower accuracy / after inputs changed / across '
             'contexts / after an aborted computation" clauses for all histories; rounding-level '
             'differences are not decided.',
@@ -226,7 +229,7 @@ CLAIMED = {
             'genuine defects with failing inputs, repaired together with the seven of C14 by the outward helper); '
             'kernels called with a directed mode by rectangle functions honour it (C-R5); no rectangle endpoint comes straight from a '
             'complex transcendental kernel called with a directed mode: the corner values of gamma go through mpc_outward, whose '
-            'body (extra bits, allowance relative to the modulus, outward direction, pass-through) is verified (C-R14c, C-R19c).  NOT decided: corner selection inside the '
+            'body (extra bits, allowance relative to the modulus, outward direction, pass-through) is verified (C-R14c, C-R19c) and which claims no bound from an infinite or undefined part of the kernel value (C-R22: -inf / +inf in the requested direction; genuine defect repaired -- unbounded rectangles gave confident wrong gamma rectangles).  NOT decided: corner selection inside the '
             'audited endpoint-level functions, the excluded region of gamma, value-level tightenings.',
             'Trusts the monotonicity table; the real interval functions are trusted only where C14 has no finding.',
             'DESIGN.md section 2, Engine C'),
@@ -278,7 +281,10 @@ CLAIMED = {
             'the four asymptotic-series helpers are computed from the precision variable the series runs '
             'at, after its last change (T-R8).  Found and repaired: mpc_psi0 never returned above ~4400 '
             'bits.  Unbounded term generators handed to sum_accurately have a counter cap, factorial decay or a bound on the '
-            'number of terms established before (T-R14).',
+            'number of terms established before (T-R14).  The Riemann-Siegel entry points make their float estimates '
+            '(math.pow with an argument-dependent exponent) under a handler that turns OverflowError into a documented '
+            'exception (T-R15), and a search loop whose condition calls gamma / factorial on its own counter owns a '
+            'second exit (T-R16); both found as genuine defects and repaired.',
             'Convergence of each series / Newton iteration for each argument is not decided.',
             'DESIGN.md section 4 (C24)'),
     'C34': ('H-ode-closure',
@@ -294,7 +300,10 @@ CLAIMED = {
             'wide window of trailing coefficients or checked a posteriori against the differential equation at the '
             'end of the step (O-R10; genuine defect repaired: lacunary and polynomial solutions were integrated with '
             'the maximal step); the step test scales with the solution (O-R11: one known finding, the purely '
-            'absolute test).  Decides these clauses, not the size of the truncation error.',
+            'absolute test); the first segment is built at the frozen working precision like every extension (O-R12), '
+            'that precision covers the tolerance (O-R13), and the step-halving loop has an exit that does not depend on '
+            'the absolute tolerance (O-R14; the last three genuine defects repaired, one a regression of an earlier '
+            'repair).  Decides these clauses, not the size of the truncation error.',
             'Accuracy of the Taylor steps (degree, Euler step h, the /2 safety factor) is numerical and '
             'not decided.',
             'DESIGN.md section 4 (C34)'),
@@ -308,10 +317,12 @@ CLAIMED = {
             'transcoded with the same base on both sides, __setstate__ stores straight into the slot the '
             'state was read from, no hook rebuilds a number through the rounding constructor, the '
             'classes pickle must find by name are registered, and matrix.copy yields storage no in-place '
-            'mutation of the original can reach.  Found and repaired: matrices could not be pickled at '
-            'all.',
+            'mutation of the original can reach; matrices of the global fp and iv contexts and the interval '
+            'numbers reduce to a module-level function that rebuilds them through their context (P-R7).  Found and '
+            'repaired: matrices could not be pickled at all; fp / iv matrices and interval numbers raised '
+            'PicklingError, interval constants could not be copied.',
             'Trusts hex()/MPZ(.,16) to be mutually inverse and the pickle protocol machinery of CPython; '
-            'classes of clone contexts / fp / iv matrices are outside the property text and not checked.',
+            'classes of clone contexts are refused with an explicit PicklingError and not checked further.',
             'DESIGN.md section 4 (C40)'),
     'C43': ('H-fp-wrappers',
             'static analysis: shape rules on the three math2 wrappers, sibling-agreement rule over every '
@@ -329,7 +340,9 @@ CLAIMED = {
             'normalise a negative-zero imaginary part on their cuts (F-R6, repaired); amplification without guard '
             'digits is listed (F-R8, eight known findings); on the mp side every inverse function that takes '
             'log(1 + t) raises its precision with the magnitude of t (F-R12, repaired: mp was wrong by up to 100 %% '
-            'for small complex arguments).  Numerical agreement with mp to 2^-48 in general is not decided.',
+            'for small complex arguments); an infinity does not take the even-integer shortcut of the *pi functions and '
+            'Newton corrections of roots are skipped at infinity (F-R16, F-R17: regressions of two earlier repairs, '
+            'repaired).  Numerical agreement with mp to 2^-48 in general is not decided.',
             'Trusts the behaviour classes of the math module functions (tables in sa/checks/c43.py).  '
             'Value facts are checked only where a formula can be evaluated from the source (F-R9).',
             'DESIGN.md section 4 (C43)'),
@@ -393,7 +406,9 @@ CLAIMED = {
             'sa/rootoff.py); backend alternatives of the digit conversion share their recursive tail (Y-R5) and use the same '
             'parameters (Y-R9); every argument of bitcount (66 sites) is non-negative, decided by a flow-sensitive '
             'integer sign analysis (sa/intsign.py) with reasoned parameter / site contracts (Y-R8: the back ends '
-            'disagree on negative integers).  Bit-identical results in general are NOT decided.',
+            'disagree on negative integers); every call of from_man_exp that passes a precision passes a rounding mode '
+            '(Y-R10: gmpy\'s replacement has another default; genuine defect repaired).  Bit-identical results in '
+            'general are NOT decided.',
             'Assumes the C routines implement the contract named in the table row.  The exact integer '
             'approximate root isqrt_fast_python is assumed to be within one unit of the floor root (documented, '
             'and observed on 200 000 probes).',
@@ -444,7 +459,7 @@ CLAIMED = {
             'repaired); rationals stored without create_reduced keep a positive denominator (N-R8, sign analysis; '
             'genuine defect repaired).  ldexp and frexp are exact field rewrites '
             '(exponent + n; exponent -bc with e = exp+bc).  The rational and mpf branches of nint_distance are closed-form '
-            'integer arithmetic and are evaluated from the source on a grid (N-R6: grid evaluation, not a proof); fp and iv contexts and Python floats (C09) are outside the clause; isint / isnpint / nint_distance decide a Fraction from numerator and denominator before the rounding conversion (N-R9).',
+            'integer arithmetic and are evaluated from the source on a grid (N-R6: grid evaluation, not a proof); the iv context and Python floats (C09) are outside the clause; FPContext.mag / isnpint are checked structurally for their special cases (N-R10: nan, infinities, large complex numbers and ints handled before math.frexp / abs / round; genuine defect repaired); isint / isnpint / nint_distance decide a Fraction from numerator and denominator before the rounding conversion (N-R9).',
             'Assumes canonical raw values (C01) and reduced rationals; trusts the interpreter in sa/classdom.py.',
             'DESIGN.md section 10 (C39)'),
     'C08': ('W-printing',
